@@ -8,6 +8,36 @@ fn fnv64(s: &str) -> u64 {
     h
 }
 
+/// the token stream with every punctuation character as a token of its own: `&&` and `& &` are the same tokens for the
+/// compiler, but a parser that gives `&&x` a shape re-emits it as two separate `&`
+fn flat(ts: proc_macro2::TokenStream, out: &mut String) {
+    for tt in ts {
+        match tt {
+            proc_macro2::TokenTree::Group(g) => {
+                let (o, c) = match g.delimiter() {
+                    proc_macro2::Delimiter::Parenthesis => ("(", ")"),
+                    proc_macro2::Delimiter::Brace => ("{", "}"),
+                    proc_macro2::Delimiter::Bracket => ("[", "]"),
+                    proc_macro2::Delimiter::None => ("", ""),
+                };
+                out.push_str(o);
+                out.push(' ');
+                flat(g.stream(), out);
+                out.push_str(c);
+                out.push(' ');
+            },
+            proc_macro2::TokenTree::Punct(p) => {
+                out.push(p.as_char());
+                out.push(' ');
+            },
+            other => {
+                out.push_str(&other.to_string());
+                out.push(' ');
+            },
+        }
+    }
+}
+
 fn unescape(s: &str) -> String {
     let mut out = String::new();
     let mut it = s.chars();
@@ -37,6 +67,14 @@ fn main() {
         let res = match src.parse::<proc_macro2::TokenStream>() {
             Err(e) => format!("unparsable {}", e),
             Ok(ts) => match std::panic::catch_unwind(|| educe_inproc::verif_expand(ts)) {
+                // VERIF_FEATDRV_TEXT=1: the expansion itself, for diagnosing a reported difference by hand
+                Ok(Ok(t)) if std::env::var_os("VERIF_FEATDRV_TEXT").is_some() => format!("ok {}", t.to_string().replace('\n', " ")),
+                // VERIF_FEATDRV_FLAT=1: hash of the spacing-insensitive form (comparisons between differently configured parsers)
+                Ok(Ok(t)) if std::env::var_os("VERIF_FEATDRV_FLAT").is_some() => {
+                    let mut s = String::new();
+                    flat(t, &mut s);
+                    format!("ok {:016x}", fnv64(&s))
+                },
                 Ok(Ok(t)) => format!("ok {:016x}", fnv64(&t.to_string())),
                 Ok(Err(e)) => format!("err {}", e.to_string().replace('\n', "\\n")),
                 Err(_) => "panic".to_string(),
